@@ -198,8 +198,17 @@ def judge_update(out, pre_X, pre_G, pre_fields, xk, gk, maxcor, eps, post_X, pos
 # ---------------------------------------------------------------------------
 # candidates
 # ---------------------------------------------------------------------------
-def candidate_stream(rng, n, length):
-    """Yields (x, g) with a mix of curvature situations."""
+def candidate_stream(rng, n, length, f32=False):
+    """Yields (x, g) with a mix of curvature situations. f32: the gradients are handed over in single precision (a user's gradient code
+    working in float32), with candidates whose step and gradient difference are orthogonal to one part in 1e6..1e8."""
+    if f32:
+        for xx, gg in _candidate_stream(rng, n, length, True):
+            yield xx, gg.astype(np.float32)
+        return
+    yield from _candidate_stream(rng, n, length, False)
+
+
+def _candidate_stream(rng, n, length, f32):
     A = gen.rand_spd(rng, n, float(np.exp(rng.uniform(0, np.log(1e4)))))
     Q, _ = np.linalg.qr(rng.standard_normal((n, n)))
     ev = rng.standard_normal(n) * 3
@@ -217,7 +226,7 @@ def candidate_stream(rng, n, length):
         return (A if which == 0 else Aind) @ x - b
 
     which = 0
-    far = bool(rng.random() < 0.2)
+    far = bool(rng.random() < 0.2) and not f32
     if far:
         # iterates far from the origin relative to the steps between them (|x| ~ 1e6..1e9, |s| ~ 1e-3): the step is known exactly
         # (differences of nearby doubles are exact) although x.y and x_old.y are huge
@@ -227,7 +236,7 @@ def candidate_stream(rng, n, length):
     for _ in range(length):
         r = rng.random()
         cum = np.cumsum(mode_w)
-        if far and rng.random() < 0.6:
+        if (far or f32) and rng.random() < 0.6:
             # a candidate whose step and gradient difference are orthogonal to one part in 1e5..1e7 (on either side of zero)
             sstep = rng.standard_normal(n) * 1e-3
             x_new = x + sstep
@@ -236,7 +245,7 @@ def candidate_stream(rng, n, length):
             ss = float(sstep @ sstep)
             if ss > 0:
                 y = y - float(y @ sstep) / ss * sstep
-                y = y + float(rng.choice([-1.0, 1.0])) * float(10.0 ** rng.uniform(-7, -5)) * float(np.linalg.norm(y)) / np.sqrt(ss) * sstep
+                y = y + float(rng.choice([-1.0, 1.0])) * float(10.0 ** (rng.uniform(-8.5, -6.5) if f32 else rng.uniform(-7, -5))) * float(np.linalg.norm(y)) / np.sqrt(ss) * sstep
             x = x_new
             g = g + y
             yield x.copy(), g.copy()
@@ -334,7 +343,9 @@ def run_direct(spec, out):
         out.count("pairs_of_histories_advanced_in_turn")
     st = []
     for q in range(nstreams):
-        stream = candidate_stream(rng, n, length)
+        stream = candidate_stream(rng, n, length, f32=bool(spec["seed"] % 5 == 2))
+        if q == 0 and spec["seed"] % 5 == 2:
+            out.count("streams_with_single_precision_gradients")
         x0, g0 = next(stream)
         st.append(dict(stream=stream, X=deque([x0.copy()]), G=deque([g0.copy()]), mats=LBFGSB_MATRICES(n), done=False))
     nrej = nev = 0
